@@ -21,6 +21,7 @@ def run(ctx):
     filter_(ctx)
     snapshot(ctx)
     range_(ctx)
+    buffered(ctx)
     cols(ctx)
     order(ctx)
     errstop(ctx)
@@ -262,6 +263,59 @@ def range_(ctx):
             from_row = any(o.kind == "call" and o.call.f.endswith("Row::<'_>::get") for o in last)
             R.require(zero and from_row, "unfiltered#%d" % n, c.where(), "an unfiltered source is chunked over 0..=MAX(seq) read from the same version row",
                       fail_msg="an unfiltered row source is chunked over %s..%s" % (cm.origin_summary(k), cm.origin_summary(last)))
+
+
+def buffered(ctx):
+    """a partially buffered version is answered with the INTERSECTION of a held seq range (row of __corro_seq_bookkeeping)
+    and the requested range: start derives from both starts (max), end from both ends (min)  (added after C05-c / C03-c)"""
+    F = ctx.F
+    R = ctx.rule("C05.buffered", "K4", "the chunk range served from __corro_buffered_changes is bounded by the held range AND the requested range: start = max(held.start, requested.start), end = min(held.end, requested.end)")
+    b = F.get(HN)
+    if not R.anchor(b, "handle_need", "fn handle_need"):
+        return
+    site = None
+    for c in b.calls:
+        if not c.f.endswith("ChunkedChanges::<I>::new"):
+            continue
+        qm = [o.call for o in cm.operand_origins(b, c, 0) if o.kind == "call" and o.call.name() == "query_map"]
+        if not qm:
+            continue
+        preps = [o.call for o in cm.operand_origins(b, qm[0], 0) if o.kind == "call" and cm.CONN_SQL.search(o.call.f)]
+        if preps and "__corro_buffered_changes" in " ".join(cm.call_strings(b, preps[0], F)):
+            site = (c, qm[0])
+    if not R.anchor(site, "buffered-chunker", "ChunkedChanges::new over rows of __corro_buffered_changes"):
+        return
+    c, q = site
+    binds = _named_params(b, q)
+    stop_mm = lambda k: k.name() in ("max", "min")
+    for ai, want, acc, bind in ((1, "max", "start", ":start_seq"), (2, "min", "end", ":end_seq")):
+        pl = op_place(c.args[ai])
+        org = flow.origins(b, pl, at=(c.bb, "T"), stop=stop_mm) if pl is not None else set()
+        mm = [o.call for o in org if o.kind == "call" and o.call.name() in ("max", "min")]
+        sides = set()
+        accs = set()
+        leaves = []
+        if mm:
+            for k in mm:
+                for j in range(min(2, len(k.args))):
+                    if op_place(k.args[j]) is not None:
+                        leaves += list(flow.origins(b, op_place(k.args[j]), at=(k.bb, "T"), stop=lambda x: x.name() in ("start", "end")))
+        else:
+            leaves = list(flow.origins(b, pl, at=(c.bb, "T"), stop=lambda x: x.name() in ("start", "end"))) if pl is not None else []
+        for x in leaves:
+            if x.kind == "call" and x.call.name() in ("start", "end") and x.call.args and op_place(x.call.args[0]) is not None:
+                accs.add(x.call.name())
+                for y in flow.origins(b, op_place(x.call.args[0]), at=(x.call.bb, "T")):
+                    sides.add("requested" if y.kind == "arg" else "held" if y.kind == "call" else y.kind)
+            elif x.kind == "arg":
+                sides.add("requested")
+        R.require({"requested", "held"} <= sides and accs == {acc}, "both-%ss" % acc, c.where(),
+                  "the chunker's %s derives from the held range's %s and the requested range's %s" % (acc, acc, acc),
+                  fail_msg="the chunker's %s for a partially buffered version derives from %s via %s: it must be bounded by BOTH the held and the requested range, otherwise the changeset claims sequences the server does not hold (or was not asked for)"
+                           % (acc, sorted(sides) or "nothing recognisable", sorted(accs) or "no start()/end()"))
+        if mm:
+            R.require(all(k.name() == want for k in mm), "%s-is-%s" % (acc, want), mm[0].where(), "%s is the %s of the two %ss" % (acc, want, acc),
+                      fail_msg="the served %s is the %s of the held and requested %ss (must be %s for an intersection)" % (acc, mm[0].name(), acc, want))
 
 
 def _value_sig(b, call, ai):
